@@ -209,15 +209,14 @@ def SCHEMA(**kw):
 def _has_key(ex, fr, m, k):
     """the mapping has an entry under a key equal to k"""
     kb = ex.box(k)
-    return VBool(ex.exists(0, m.n, lambda i: z3.Or(z3.Select(m.keys, i) == kb, sym.py_eq(z3.Select(m.keys, i), kb))))
+    return VBool(ex.exists(0, m.n, lambda i: ex.world.key_same(ex, z3.Select(m.keys, i), k, kb)))
 
 
 @specfn("value_at")
 def _value_at(ex, fr, m, k, v):
     """some entry with a key equal to k holds exactly v"""
     kb, vb = ex.box(k), ex.box(v)
-    return VBool(ex.exists(0, m.n, lambda i: z3.And(z3.Or(z3.Select(m.keys, i) == kb, sym.py_eq(z3.Select(m.keys, i), kb)),
-                                                    z3.Select(m.vals, i) == vb)))
+    return VBool(ex.exists(0, m.n, lambda i: z3.And(ex.world.key_same(ex, z3.Select(m.keys, i), k, kb), z3.Select(m.vals, i) == vb)))
 
 
 @specfn("no_unprovided")
@@ -231,7 +230,7 @@ def _others_untouched(ex, fr, m, old_m, k):
     """every entry of the old mapping whose key differs from k is still there with its value, and no
     entry under another key appeared"""
     kb = ex.box(k)
-    same = lambda x: z3.Or(x == kb, sym.py_eq(x, kb))
+    same = lambda x: ex.world.key_same(ex, x, k, kb)
     kept = ex.forall(0, old_m.n, lambda i: z3.Implies(z3.Not(same(z3.Select(old_m.keys, i))), ex.exists(0, m.n, lambda j: z3.And(
         z3.Select(m.keys, j) == z3.Select(old_m.keys, i), z3.Select(m.vals, j) == z3.Select(old_m.vals, i)))))
     nonew = ex.forall(0, m.n, lambda j: z3.Implies(z3.Not(same(z3.Select(m.keys, j))), ex.exists(0, old_m.n, lambda i: z3.And(
